@@ -184,7 +184,7 @@ func (w *World) replayOrder(pre, final *Snapshot, cmds []ConcCmd, order []int) (
 		case p == nil:
 			out = append(out, fmt.Sprintf("%s should exist at the end (acknowledged) but is gone", id))
 		default:
-			o := DiffOpts{}
+			o := DiffOpts{IgnoreUpdatedAt: w.Skewed} // which stamp is "latest" is undefined when time does not grow along the log
 			if touched[id] || pre.Items[id] == nil {
 				o.IgnoreUpdatedAt, o.IgnoreClaimedAt, o.IgnoreCreatedAt, o.IgnoreUUID, o.IgnoreResultTS = true, true, true, true, true
 			}
